@@ -244,6 +244,22 @@ def c01b(chk, rs):
         chk.ob("C01.b", "read_site/Standard@no-projection/requires-no-skipped-sample", ok, f.loc(b),
                "without projection Site::Standard must be dominated by the true edge of self.skipped_samples.is_empty() "
                "(a record with a missing/multiallelic selected sample contributes nothing)")
+    # every site outcome is decided inside one of the two branches of the projection option, and without projection a site is
+    # insufficient only if a selected sample was skipped
+    for b, variant, rv in rs.site_aggregates():
+        placed = rs.in_proj(b) or rs.in_noproj(b)
+        chk.ob("C01.b", "read_site/%s/decided-under-the-projection-option" % variant, placed, f.loc(b),
+               "Site::%s must be constructed either in the projection branch (rules of C02.a) or in the no-projection branch (complete sites only); "
+               "an outcome decided before that split bypasses both rule sets" % variant)
+        if variant == "InsufficientData" and rs.in_noproj(b):
+            ok = False
+            if is_empty is not None:
+                st = f.term(is_empty[1])
+                true_t = st["otherwise"] if all(a[0] == 0 for a in st["arms"]) else an.edge_target(st, 1)
+                false_ts = [x for x in set(f.succ.get(is_empty[1], [])) if x != true_t]
+                ok = any(an.dominated_by_edge(f, is_empty[1], x, b) for x in false_ts)
+            chk.ob("C01.b", "read_site/InsufficientData@no-projection/requires-a-skipped-sample", ok, f.loc(b),
+                   "without projection a record is insufficient only when self.skipped_samples is not empty: a complete site is counted")
     # Skipped arm records the sample on every path back to the header
     sk = rs.arm.get("Skipped")
     pushes = set()
@@ -522,42 +538,54 @@ def c01d(chk):
 
 
 SIBLINGS = [
-    ("sfs_core::input::sample::Map::shape::{closure#0}", "sample::Map::shape (population size -> axis length)"),
-    ("sfs_core::input::site::reader::builder::Project::shape::{closure#0}", "create --project-individuals"),
-    ("sfs::view::View::run::{closure#1}", "view --project-individuals"),
+    ("sfs_core::input::sample::Map::shape", "sample::Map::shape (population size -> axis length)"),
+    ("sfs_core::input::site::reader::builder::Project::shape", "create --project-individuals"),
+    ("sfs::view::View::run", "view --project-individuals"),
 ]
+
+
+def _sibling_sites(chk, path):
+    """the integer arithmetic feeding the shape produced by one of the three individuals -> shape conversions (wherever it is written:
+    in a closure of map(..), in a loop body pushing to a vector, or inline)"""
+    f = chk.fn(path)
+    if f is None:
+        return None, None
+    if path == VIEW_RUN:
+        pc = an.calls(f, "sfs_core::spectrum::Spectrum::<S>::project")
+        if len(pc) != 1:
+            return f, None
+        root = pc[0][1]["args"][1]
+    else:
+        root = 0
+    return f, an.arithmetic_sites(chk.prog, f, root)
 
 
 def affine_siblings(chk, rule):
     forms = {}
     for path, what in SIBLINGS:
-        g = chk.prog.fn(path)
-        if g is None and path.startswith("sfs::view::View::run"):
-            # closure numbering may shift: pick the closure of View::run that has an affine form
-            for c in chk.prog.closures_of(VIEW_RUN):
-                r = an.affine_form_opaque(c)
-                if r is not None and c.locals[0]["ty"] == "usize" and r[0] != 0:
-                    g = c
-        if g is None:
-            chk.fail(rule, "affine/%s/ANCHOR-MISSING" % what, "", "closure %s not found" % path)
+        f, sites = _sibling_sites(chk, path)
+        if f is None:
             continue
-        chk.fns_analysed.add(g.path)
-        r = an.affine_form_opaque(g)
-        forms[what] = r
-        chk.ob(rule, "affine/%s=2x+1" % what, r is not None and r[0] == 2 and r[1] == 1, g.loc(),
-               "individuals -> axis length must be 2*x+1 (found %s)" % (("%d*x+%d over %s" % r) if r else "not affine / unrecognised"))
+        if not sites:
+            chk.fail(rule, "affine/%s=2x+1" % what, f.loc(), "no integer arithmetic feeds the shape: the 2*x+1 conversion was not found")
+            continue
+        for g, l, r in sites:
+            chk.fns_analysed.add(g.path)
+        bad = [(g.loc(), ("%d*x+%d over %s" % r) if r else "not affine / unrecognised") for g, l, r in sites if not (r is not None and r[0] == 2 and r[1] == 1)]
+        forms[what] = sites[0][2]
+        chk.ob(rule, "affine/%s=2x+1" % what, not bad, sites[0][0].loc(),
+               "individuals -> axis length must be 2*x+1 (arithmetic feeding the shape: %s)" % [(g.loc(), ("%d*x+%d over %s" % r) if r else "not affine / unrecognised") for g, l, r in sites])
     return forms
 
 
 def c01e(chk):
     affine_siblings(chk, "C01.e")
-    f = chk.fn(MAP_SHAPE)
+    f, sites = _sibling_sites(chk, MAP_SHAPE)
     if f is None:
         return
-    # the closure's variable is the population size looked up by id
-    g = chk.prog.fn(SIBLINGS[0][0])
-    if g is not None:
-        r = an.affine_form_opaque(g)
+    # the variable is the population size looked up by id
+    if sites:
+        g, l, r = sites[0]
         chk.ob("C01.e", "Map::shape/variable-is-population-size", r is not None and r[2] is not None and "unwrap" in (r[2] or ""), g.loc(),
                "the x in 2x+1 is the looked-up population size (leaf: %s)" % (r[2] if r else None))
 
@@ -714,6 +742,9 @@ def c02a(chk, rs):
         return an.edge_target(f.term(b), 0)
     for b, variant, rv in rs.site_aggregates():
         if not rs.in_proj(b):
+            if not rs.in_noproj(b):
+                chk.ob("C02.a", "read_site/%s/decided-under-the-projection-option" % variant, False, f.loc(b),
+                       "Site::%s is constructed outside both branches of the projection option: with --project it bypasses the exact / projectable decision" % variant)
             continue
         if variant == "Standard":
             ok = an.dominated_by_edge(f, sw_exact, true_t(sw_exact), b)
@@ -844,6 +875,15 @@ def c02b(chk, rs):
         elif len(r0) == 1 and r0[0][0] == "assign" and r0[0][3]["k"] == "use" and op_local(r0[0][3]["op"]) is not None:
             root = g.copy_root(op_local(r0[0][3]["op"]))
         acc = IT.accumulation(prog, g, its, root) if root is not None and it is not None else None
+        rd = g.single_def(root) if root is not None else None
+        if acc is None and it is not None and rd and rd[0] == "call" and (rd[2]["callee"].get("path") or "") == "core::iter::traits::iterator::Iterator::product":
+            # `.map(|..| pmf(..)).product::<f64>()`: the product of every pmf, starting from 1.0 by definition
+            ch = IT.receiver_chain(g, rd[2]["args"][0])
+            mt = IT.chain_get(ch, "map")
+            through = mt is not None and it.kind == "closure" and it.term is mt and an.call_dest_local(hs[0][2]) == 0 and not it.switches()
+            plain = [n for n in IT.chain_names(ch) if n not in ("map", "zip", "iter")] == []
+            ok = through and plain and "f64" in " ".join(rd[2]["callee"].get("args", []))
+            why = "product() over map(|..| pmf(..)): %s" % ok
         if acc is not None:
             ai = acc["it"]
             res = acc["result"]
